@@ -45,38 +45,42 @@ Qed.
 
 Definition count_of (c : option Z) : Z := match c with Some c => c | None => 1 end.
 
+(* by height, for ALL heights and counts: only stored rows of the declarative window [h, h+count-1], and every stored row of
+   it whose height fits a 64-bit int (stored heights are int32) *)
+Theorem by_height_sound s h c r :
+  In r (by_height_range s h c) -> In r s /\ h <= height r <= h + count_of c - 1.
+Proof.
+  unfold by_height_range, count_of.
+  destruct (Z.leb_spec (match c with Some c0 => c0 | None => 1 end) 0) as [Hc|Hc]; [intros []|].
+  rewrite idx_sort_in, filter_In, <- in_rev. unfold in_range, window_end.
+  rewrite andb_true_iff, !Z.leb_le. intros [Hr H]. split; [exact Hr| lia].
+Qed.
+
+Theorem by_height_complete s h c r :
+  In r s -> height r < two63 -> h <= height r <= h + count_of c - 1 -> In r (by_height_range s h c).
+Proof.
+  unfold by_height_range, count_of. intros Hr Hb Hw.
+  destruct (Z.leb_spec (match c with Some c0 => c0 | None => 1 end) 0) as [Hc|Hc]; [lia|].
+  rewrite idx_sort_in, filter_In, <- in_rev. unfold in_range, window_end.
+  rewrite andb_true_iff, !Z.leb_le. split; [exact Hr| lia].
+Qed.
+
+Theorem by_height_spec s h c :
+  (forall r, In r (by_height_range s h c) -> In r s /\ h <= height r <= h + count_of c - 1) /\
+  (forall r, In r s -> height r < two63 -> st r = Longest -> h <= height r <= h + count_of c - 1 -> In r (by_height_range s h c)).
+Proof.
+  split; [intros r; apply by_height_sound|]. intros r Hr Hb _ Hw. apply by_height_complete; assumption.
+Qed.
+
+(* history: the function before 76f1492 returned the rows up to the WRAPPED end *)
 Lemma wrap64_small z : - two63 <= z < two63 -> wrap64 z = z.
 Proof. intros H. unfold wrap64. rewrite Z.mod_small; unfold two63 in *; lia. Qed.
 
-(* what the code returns, always: the rows between h and the WRAPPED end *)
-Theorem by_height_char s h c r :
-  In r (by_height_range s h c) <-> In r s /\ h <= height r <= window_end h (count_of c).
+Lemma by_height_before_fix_char s h c r :
+  In r (by_height_range_before_fix s h c) <-> In r s /\ h <= height r <= window_end_before_fix h (count_of c).
 Proof.
-  unfold by_height_range, count_of. rewrite idx_sort_in, filter_In, <- in_rev. unfold in_range.
+  unfold by_height_range_before_fix, count_of. rewrite idx_sort_in, filter_In, <- in_rev. unfold in_range.
   rewrite andb_true_iff, !Z.leb_le. reflexivity.
-Qed.
-
-(* the declarative window, whenever height + count - 1 fits a 64-bit int *)
-Theorem by_height_spec s h c : - two63 <= h + count_of c - 1 < two63 ->
-  (forall r, In r (by_height_range s h c) -> In r s /\ h <= height r <= h + count_of c - 1) /\
-  (forall r, In r s -> st r = Longest -> h <= height r <= h + count_of c - 1 -> In r (by_height_range s h c)).
-Proof.
-  intros Hfit. pose proof (wrap64_small _ Hfit) as Hw. split.
-  - intros r Hr. apply by_height_char in Hr. unfold window_end in Hr. rewrite Hw in Hr. exact Hr.
-  - intros r Hr _ Hwin. apply by_height_char. unfold window_end. rewrite Hw. split; assumption.
-Qed.
-
-(* the repaired variant: the declarative window for every 64-bit height and count (stored heights fit 64 bits) *)
-Theorem by_height_fixed_char s h c r : (forall x, In x s -> height x < two63) ->
-  (In r (by_height_range_fixed s h c) <-> In r s /\ h <= height r <= h + count_of c - 1).
-Proof.
-  intros Hb. unfold by_height_range_fixed, count_of.
-  destruct (Z.leb_spec (match c with Some c0 => c0 | None => 1 end) 0) as [Hc|Hc].
-  - split; [intros []| intros [_ H]; lia].
-  - rewrite idx_sort_in, filter_In, <- in_rev. unfold in_range, window_end_fixed.
-    rewrite andb_true_iff, !Z.leb_le. split.
-    + intros [Hr H]. split; [exact Hr|]. lia.
-    + intros [Hr H]. split; [exact Hr|]. pose proof (Hb r Hr). lia.
 Qed.
 
 (* ================================================================== tips *)
